@@ -114,6 +114,52 @@ def handle (op : String) (args : List PyVal) : Option (List PyVal) :=
   | "profile", [.str "counts", .list vals, .list []] => do
     let xs ← decCol (fun v => some v) vals
     pure (encProf id (profileCounts xs))
+  | "sum", [.str "numeric", .list va, .list vb, .list table] => do
+    let xa ← decCol decRat va
+    let xb ← decCol decRat vb
+    let t ← decTable decRat table
+    if !covered t xa || !covered t xb then none
+    pure (encProf encRat (addProf (profileNumeric (ratOps t) xa) (profileNumeric (ratOps t) xb)))
+  | "sum", [.str "temporal", .list va, .list vb, .list table] => do
+    let xa ← decCol decInt va
+    let xb ← decCol decInt vb
+    let t ← decTable decInt table
+    if !covered t xa || !covered t xb then none
+    pure (encProf (fun i => .int i) (addProf (profileTemporal (intOps t) xa) (profileTemporal (intOps t) xb)))
+  | "sum", [.str "text", .list va, .list vb, .list table] => do
+    let xa ← decCol decStr va
+    let xb ← decCol decStr vb
+    let t ← decTable decStr table
+    if !covered t xa || !covered t xb then none
+    pure (encProf (fun s => .str s) (addProf (profileText (strOps t) cutText xa) (profileText (strOps t) cutText xb)))
+  | "sum", [.str "boolean", .list va, .list vb, .list []] => do
+    let xa ← decCol decBool va
+    let xb ← decCol decBool vb
+    pure (encProf (fun b => .bool b) (addProf (profileBoolean xa) (profileBoolean xb)))
+  | "batchedfull", [.str "numeric", n, .list vals, .list table] => do
+    let n ← decBatch n
+    let xs ← decCol decRat vals
+    let t ← decTable decRat table
+    if !covered t xs then none
+    match batchedProf (profileNumeric (ratOps t)) n xs with
+    | none => pure [.none]
+    | some p => pure (encProf encRat p)
+  | "batchedfull", [.str "temporal", n, .list vals, .list table] => do
+    let n ← decBatch n
+    let xs ← decCol decInt vals
+    let t ← decTable decInt table
+    if !covered t xs then none
+    match batchedProf (profileTemporal (intOps t)) n xs with
+    | none => pure [.none]
+    | some p => pure (encProf (fun i => .int i) p)
+  | "batchedfull", [.str "text", n, .list vals, .list table] => do
+    let n ← decBatch n
+    let xs ← decCol decStr vals
+    let t ← decTable decStr table
+    if !covered t xs then none
+    match batchedProf (profileText (strOps t) cutText) n xs with
+    | none => pure [.none]
+    | some p => pure (encProf (fun s => .str s) p)
   | "add", [a, b] => do
     let a ← decCore a
     let b ← decCore b
